@@ -80,6 +80,19 @@ def run(ctx):
         "part names must be the transport its scheme says (never plaintext where the scheme asks for encryption, nothing at "
         "all for an unknown scheme); going to the upstreams instead is always accepted (signatures listener:<class>:forward-*; "
         "a crash on a bad listen part followed by a forward part: listener:<form>:<listen class>+forward:panic@site). "
+        "Pair monitor (c18_pair_test.go): every upstream spelling unmarshalUpstream accepts for a stream / datagram carrier "
+        "(tcp, tcp+tls, http, https, ws, wss; unix, unix+tls; stdin, stdin+tls; udp, udp4; upper/mixed-case spellings, more of "
+        "them by PRNG in the thorough tier) as the real upstream object made from its command-line form, connected to REAL "
+        "servers of every transport kind of its socket family (tcp, tcp+tls, http, https / unix, unix+tls / stdin, stdin+tls / "
+        "udp: matching and mismatching pairs), each with and without a certificate (StartTLS offered or not) and with "
+        "mustSecure off and on, through a recording relay (TCP, unix, pipes, UDP). Oracle = the same table: every connection "
+        "the client opens starts as its scheme says (TLS record layer from the first byte / clear announce / websocket "
+        "upgrade / datagram), a mismatching pair is rejected and never served, a matching pair connects (unless mustSecure "
+        "cannot be met), Secure()/SecurityTech of the client connection equal what the server reports (server.session hook) "
+        "and agree with the wire ('underlying' only over outer TLS, 'tls' only after a StartTLS handshake seen on the wire), and "
+        "a marker written through the established connection is readable on the wire (websocket frames unmasked) exactly "
+        "when the session is reported insecure; mustSecure is never met by a clear-text wire (signatures "
+        "upstream:pair:<upstream scheme>-><server scheme>:<kind>). "
         "A case is distinct by (monitor, input form [+context], position, input).",
         ["the README line references are those of the README at the time the table was transcribed",
          "a scheme that the code accepts but the README does not list is only checked for its natural reading when accepted",
@@ -89,6 +102,9 @@ def run(ctx):
          "(client: listen+upstream, listen, insecure only; server: servers+channels, channels)",
          "forward part: the README names no schemes for it; tcp and unix are taken as documented (README L57, L384-388), "
          "unixpacket/tcp4/tcp6 as code-only; a forward part on a datagram family (udp, unixgram) is parsed but never started",
+         "pair: a plain stdin upstream against a stdin+tls server is left out (the TLS stdio server gives up silently on a non-TLS "
+         "first record and a client on a pipe has no deadline: Connect waits for ever; nothing is served); dns and unixgram/"
+         "unixpacket upstreams are not paired (judged by the other monitors)",
          "reuse: a stdio upstream / stdio server has one peer per process and is used once; the black-box client is re-used for "
          "stream carriers (socket, websocket) only, where one accepted connection at the recorder is one attempt of the client"],
         extra_cov={"exhaustive": False}, post=post)
